@@ -13,7 +13,8 @@
 //   front code      stdout: {"id": .., "name": ..} — `ReportCode::ParseFail.id()` / `.name()` of the current tree, the
 //                   code Model.Front.report_of gives every report of the Includes stage (parameters pf_id / pf_name);
 //                   third pass: also "codes": {<key>: {"id","name"}} for the codes of Model.FrontStages.codes and
-//                   "compiler_version": `config::COMPILER_VERSION` (cross-check of the regenerated Gen.CompilerVersion)
+//                   "compiler_version": `config::COMPILER_VERSION` (the source of the regenerated Gen.CompilerVersion: third
+//                   audit, the constant is no longer read off the text of config.rs with a regular expression)
 //   front stages    (third pass) the inputs of Model.FrontStages that the PARSER yields, for the files of a FileLibrary:
 //                   stdin: one JSON object per line {"files": [[file id, path], ..]} (the ids and paths of the real
 //                   FileLibrary, in id order); every file is read and parsed ALONE with its own file id by
@@ -136,6 +137,7 @@ fn main() {
                            "anonymous": one(ReportCode::AnonymousComponentError),
                            "param_collision": one(ReportCode::ParameterNameCollision),
                            "undefined": one(ReportCode::UninitializedSymbolInExpression),
+                           "same_symbol": one(ReportCode::SameSymbolDeclaredTwice),
                        },
                        "compiler_version": [cv.0, cv.1, cv.2]})
             );
